@@ -334,6 +334,44 @@ pub fn execute(scn: &PairScn, ctx: &mut Ctx) {
         }
         ctx.stats.absorb_world(&w3.borrow());
     }
+    // C06 through the complete reader: from the same state (after seek(k)), the typed bulk read
+    // returns what the generic bulk read returns, converted
+    if bad == "no-failing-row" && n >= 2 {
+        let idx_of = |rec: &dbase::Record| match rec.get("idx") {
+            Some(dbase::FieldValue::Integer(i)) => Some(*i as i64),
+            _ => None,
+        };
+        for k in [1usize, n - 1, 0] {
+            let w5 = World::with_data(Plan::default(), shp.clone(), shx.clone(), dbf.clone());
+            let r = guarded(|| -> Result<(Vec<(Geom, Option<i64>)>, Vec<(Geom, Option<i64>)>), shapefile::Error> {
+                let open = || -> Result<Reader<Stack, Stack>, shapefile::Error> { Ok(Reader::new(ShapeReader::with_shx(Stack::reader(&w5, SHP, StackCfg::Direct), Stack::reader(&w5, SHX, StackCfg::Direct))?, dbase::Reader::new(Stack::reader(&w5, DBF, StackCfg::Direct))?)) };
+                let mut r1 = open()?;
+                let mut r2 = open()?;
+                r1.seek(k)?;
+                r2.seek(k)?;
+                let generic: Vec<(Geom, Option<i64>)> = r1.read()?.iter().map(|(s, rec)| (capture(s), idx_of(rec))).collect();
+                let typed: Vec<(Geom, Option<i64>)> = crate::on_type!(ty, S => r2.read_as::<S, dbase::Record>()?.into_iter().map(|(s, rec)| (s.to_geom(), idx_of(&rec))).collect(), vec![]);
+                Ok((generic, typed))
+            });
+            match r {
+                Ok(Ok((generic, typed))) => {
+                    if generic != typed {
+                        ctx.fail("C06", "typed-equals-generic-converted", "complete-reader-same-state", format!("history {}: after seek({}) Reader::read() returns {} pairs, Reader::read_as::<{}>() {} pairs: {:?} vs {:?}", hist, k, generic.len(), type_name(ty), typed.len(), generic.iter().map(|(g, i)| format!("{}#{:?}", g.short(), i)).collect::<Vec<_>>(), typed.iter().map(|(g, i)| format!("{}#{:?}", g.short(), i)).collect::<Vec<_>>()));
+                        break;
+                    }
+                }
+                Ok(Err(e)) => {
+                    ctx.fail("C06", "typed-equals-generic-converted", "complete-reader-same-state", format!("history {}: bulk reads after seek({}) failed: {:?}", hist, k, classify(&e)));
+                    break;
+                }
+                Err(p) => {
+                    ctx.fail("C06", "panic", p.site(), p.text());
+                    break;
+                }
+            }
+            ctx.stats.absorb_world(&w5.borrow());
+        }
+    }
     // the complete reader without index (the .shx is optional): two pair iterations on one reader,
     // the first stopped after half of the pairs; the second yields the remaining pairs (or all of
     // them again, C15), each shape still next to its own row
